@@ -1,8 +1,11 @@
 import Dashu.Driver.Loop
 import Dashu.Model.NT.Modular
+import Dashu.Model.NT.ModInvLarge
 import Dashu.Model.NT.Gcd
 import Dashu.Model.NT.Lehmer
 import Dashu.Model.NT.Root
+import Dashu.Model.NT.Zimmermann
+import Dashu.Model.NT.PrimRoot
 import Dashu.Model.NT.Log
 import Dashu.Model.NT.Log2
 /-
@@ -36,55 +39,100 @@ def binSpec (op : String) (a b : Int) : Int :=
   match op with
   | "add" => a + b | "sub" => a - b | _ => a * b
 
+/-- branch annotations (not compared; histogram in the evidence file): which arm of the mirrored code a
+    case reaches -/
+def kindStr : Kind → String
+  | .single => "single" | .double => "double" | .large => "large"
+
+def redTag (W : Nat) (r : Ring) (a : Int) : String :=
+  let x := a.natAbs
+  let sz := match r.kind with
+    | .large => if x < 2 ^ (2 * W) then "small" else if wordLen W (x * 2 ^ r.k) ≥ r.n then "div" else "short"
+    | _ => if x < 2 ^ W then "word" else if x < 2 ^ (2 * W) then "dword"
+           else if (natWords W x).length % 2 = 0 then "large-even" else "large-odd"
+  "red." ++ kindStr r.kind ++ "." ++ sz ++ (if r.k = 0 then ".k0" else ".ks") ++ (if a < 0 then ".neg" else "")
+
+def mulTag (W : Nat) (r : Ring) (a b : Nat) : String :=
+  match r.kind with
+  | .large =>
+    if wordLen W a + wordLen W b > r.n then "mul.large.div"
+    else if (a * b) / 2 ^ r.k ≥ r.M then "mul.large.nodiv.sub" else "mul.large.nodiv.nosub"
+  | k => "mul." ++ kindStr k
+
+def invTag (W : Nat) (r : Ring) (raw : Nat) : String :=
+  match r.kind with
+  | .large =>
+    let v := raw / 2 ^ r.k
+    let l := wordLen W v
+    "inv.large." ++ (if l = 0 then "len0" else if l = 1 then "word" else if l = 2 then "dword" else "lehmer") ++
+      (if Nat.gcd v r.m = 1 then ".g1" else if wordLen W (Nat.gcd v r.m) > 1 then ".gmulti" else ".gword")
+  | k => "inv." ++ kindStr k ++ (if Nat.gcd (raw / 2 ^ r.k) r.m = 1 then ".g1" else ".gN")
+
+def powTag (W : Nat) (r : Ring) (e : Nat) : String :=
+  match r.kind with
+  | .large => "pow.large." ++ (if e = 0 then "e0" else if e = 1 then "e1" else "win" ++ toString (chooseWindowLen W (bitLen e)))
+  | k => "pow." ++ kindStr k ++ "." ++
+      (if e < 2 ^ W then (if e ≤ 2 then "e" ++ toString e else "word") else "words" ++ toString (natWords W e).length)
+
+def ann (s : String) : String := " #" ++ s
+
+/-- C13: every op runs the MIRRORED kernels (`Model/NT/ModKernels.lean`, `ModInvLarge.lean`: `rem_word`,
+    two-step `rem_dword`, `fast_rem_by_normalized_(d)word`, `PreMulInv*::mul/sqr` through num-modular's
+    dividers, `inv_large` through C12's extended-gcd kernels); `Props/C13` proves them equal to the
+    `%`-level definitions (`reduce_kernels`, `mul_sqr_kernels`, `inv_div_kernels`) -/
 def dispatchC13 : Dispatch := fun W op args =>
   match op, args with
   | "m.reduce", [m, a] => do
     let m ← parseNat m; let a ← parseInt a
     pure <| withRing W m fun r =>
-      let e := reduceInt W r a
+      let e := reduceIntK W r a
       chk ("ok " ++ resStr e ++ " " ++ natToHex e.modulus ++ validMark e)
-          ("ok " ++ natToHex (emodNat a m) ++ " " ++ natToHex m)
+          ("ok " ++ natToHex (emodNat a m) ++ " " ++ natToHex m) ++ ann (redTag W r a)
   | "m.add", [m, a, b] | "m.sub", [m, a, b] | "m.mul", [m, a, b] => do
     let m ← parseNat m; let a ← parseInt a; let b ← parseInt b
     let o := (op.drop 2).toString
     pure <| withRing W m fun r =>
-      let x := reduceInt W r a; let y := reduceInt W r b
+      let x := reduceIntK W r a; let y := reduceIntK W r b
       let res := match o with
-        | "add" => x.add y | "sub" => x.sub y | _ => x.mul W y
+        | "add" => x.add y | "sub" => x.sub y | _ => x.mulK W y
       chk (exc (fun e => resStr e ++ validMark e) res) ("ok " ++ natToHex (emodNat (binSpec o a b) m))
+        ++ ann (if o = "mul" then mulTag W r x.raw y.raw
+                else o ++ "." ++ kindStr r.kind ++ (if o = "add" then (if x.raw + y.raw ≥ r.M then ".sub" else ".nosub")
+                                                     else (if x.raw ≥ y.raw then ".noborrow" else ".borrow")))
   | "m.div", [m, a, b] => do
     let m ← parseNat m; let a ← parseInt a; let b ← parseInt b
     pure <| withRing W m fun r =>
-      let x := reduceInt W r a; let y := reduceInt W r b
-      let model := exc (fun e => resStr e ++ validMark e) (x.div W y)
+      let x := reduceIntK W r a; let y := reduceIntK W r b
+      let model := exc (fun e => resStr e ++ validMark e) (x.divK W y)
       -- spec: defined iff gcd(b, m) = 1, and then q is the unique residue with q·b ≡ a
       let spec :=
         if Nat.gcd (emodNat b m) m = 1 then
-          match x.div W y with
+          match x.divK W y with
           | .ok q => if (q.residue * emodNat b m) % m = emodNat a m ∧ q.residue < m then "ok " ++ resStr q
                      else "ok <q with q*b = a mod m>"
           | .error _ => "ok <q with q*b = a mod m>"
         else "panic NonInvertible"
-      chk model spec
+      chk model spec ++ ann ("div." ++ invTag W r y.raw)
   | "m.neg", [m, a] => do
     let m ← parseNat m; let a ← parseInt a
     pure <| withRing W m fun r =>
-      let e := (reduceInt W r a).neg
+      let e := (reduceIntK W r a).neg
       chk ("ok " ++ resStr e ++ validMark e) ("ok " ++ natToHex (emodNat (-a) m))
   | "m.dbl", [m, a] => do
     let m ← parseNat m; let a ← parseInt a
     pure <| withRing W m fun r =>
-      let e := (reduceInt W r a).dbl
+      let e := (reduceIntK W r a).dbl
       chk ("ok " ++ resStr e ++ validMark e) ("ok " ++ natToHex (emodNat (2 * a) m))
   | "m.sqr", [m, a] => do
     let m ← parseNat m; let a ← parseInt a
     pure <| withRing W m fun r =>
-      let e := (reduceInt W r a).sqr W
-      chk ("ok " ++ resStr e ++ validMark e) ("ok " ++ natToHex (emodNat (a * a) m))
+      let x := reduceIntK W r a
+      let e := x.sqrK W
+      chk ("ok " ++ resStr e ++ validMark e) ("ok " ++ natToHex (emodNat (a * a) m)) ++ ann ("sqr." ++ mulTag W r x.raw x.raw)
   | "m.pow", [m, a, e] => do
     let m ← parseNat m; let a ← parseInt a; let e ← parseNat e
     pure <| withRing W m fun r =>
-      let x := (reduceInt W r a).pow W e
+      let x := (reduceIntK W r a).powK W e
       -- spec by square-and-multiply on residues (a^e itself would be astronomically large)
       let base := emodNat a m
       let spec := Id.run do
@@ -94,37 +142,38 @@ def dispatchC13 : Dispatch := fun W op args =>
           acc := (acc * acc) % m
           if e.testBit bit then acc := (acc * base) % m
         return acc
-      chk ("ok " ++ resStr x ++ validMark x) ("ok " ++ natToHex spec)
+      chk ("ok " ++ resStr x ++ validMark x) ("ok " ++ natToHex spec) ++ ann (powTag W r e)
   | "m.inv", [m, a] => do
     let m ← parseNat m; let a ← parseInt a
     pure <| withRing W m fun r =>
-      let x := reduceInt W r a
-      let model := match x.inv with
-        | none => "ok none"
-        | some i => "ok some " ++ resStr i ++ validMark i
+      let x := reduceIntK W r a
+      let model := match x.invK W with
+        | .error k => "panic " ++ k.name
+        | .ok none => "ok none"
+        | .ok (some i) => "ok some " ++ resStr i ++ validMark i
       let spec :=
         if Nat.gcd (emodNat a m) m = 1 then
-          match x.inv with
-          | some i => if (i.residue * emodNat a m) % m = 1 % m ∧ i.residue < m then "ok some " ++ resStr i
+          match x.invK W with
+          | .ok (some i) => if (i.residue * emodNat a m) % m = 1 % m ∧ i.residue < m then "ok some " ++ resStr i
                       else "ok some <x with a*x = 1 mod m>"
-          | none => "ok some <x with a*x = 1 mod m>"
+          | _ => "ok some <x with a*x = 1 mod m>"
         else "ok none"
-      chk model spec
+      chk model spec ++ ann (invTag W r x.raw)
   | "m.eq", [m, a, b] => do
     let m ← parseNat m; let a ← parseInt a; let b ← parseInt b
     pure <| withRing W m fun r =>
-      chk (exc boolStr ((reduceInt W r a).beq (reduceInt W r b)))
+      chk (exc boolStr ((reduceIntK W r a).beq (reduceIntK W r b)))
           ("ok " ++ boolStr (emodNat a m == emodNat b m))
   | "m.mix", [o, m1, m2, a, b] => do
     let m1 ← parseNat m1; let m2 ← parseNat m2; let a ← parseInt a; let b ← parseInt b
     match Ring.new W 1 m1, Ring.new W 2 m2 with
     | .ok r1, .ok r2 =>
-      let x := reduceInt W r1 a; let y := reduceInt W r2 b
+      let x := reduceIntK W r1 a; let y := reduceIntK W r2 b
       let model ← match o with
         | "add" => some (exc resStr (x.add y))
         | "sub" => some (exc resStr (x.sub y))
-        | "mul" => some (exc resStr (x.mul W y))
-        | "div" => some (exc resStr (x.div W y))
+        | "mul" => some (exc resStr (x.mulK W y))
+        | "div" => some (exc resStr (x.divK W y))
         | "eq" => some (exc boolStr (x.beq y))
         | _ => none
       let spec := if o = "div" ∧ Nat.gcd (emodNat b m2) m2 ≠ 1 then "panic NonInvertible" else "panic DifferentRings"
@@ -135,45 +184,46 @@ def dispatchC13 : Dispatch := fun W op args =>
   | "r.transform", [m, a] => do
     let m ← parseNat m; let a ← parseNat a
     pure <| withRing W m fun r =>
-      let t := rawOfNat W r a
+      let t := rawOfNatK W r a
       chk ("ok " ++ natToHex (t / 2 ^ r.k) ++ " " ++ boolStr (rCheck r t) ++ " " ++ natToHex (r.M / 2 ^ r.k))
-          ("ok " ++ natToHex (a % m) ++ " true " ++ natToHex m)
+          ("ok " ++ natToHex (a % m) ++ " true " ++ natToHex m) ++ ann ("r." ++ redTag W r a)
   | "r.add", [m, a, b] | "r.sub", [m, a, b] | "r.mul", [m, a, b] => do
     let m ← parseNat m; let a ← parseNat a; let b ← parseNat b
     let o := (op.drop 2).toString
     pure <| withRing W m fun r =>
-      let x := rawOfNat W r a; let y := rawOfNat W r b
+      let x := rawOfNatK W r a; let y := rawOfNatK W r b
       let t := match o with
-        | "add" => rAdd r x y | "sub" => rSub r x y | _ => mulRaw W r x y
+        | "add" => rAdd r x y | "sub" => rSub r x y | _ => mulRawK W r x y
       chk ("ok " ++ natToHex (t / 2 ^ r.k) ++ " " ++ boolStr (rCheck r t))
           ("ok " ++ natToHex (emodNat (binSpec o a b) m) ++ " true")
   | "r.neg", [m, a] | "r.dbl", [m, a] | "r.sqr", [m, a] => do
     let m ← parseNat m; let a ← parseNat a
     let o := (op.drop 2).toString
     pure <| withRing W m fun r =>
-      let x := rawOfNat W r a
+      let x := rawOfNatK W r a
       let (t, s) : Nat × Int := match o with
-        | "neg" => (rNeg r x, -(a : Int)) | "dbl" => (rAdd r x x, 2 * (a : Int)) | _ => (sqrRaw W r x, (a : Int) * a)
+        | "neg" => (rNeg r x, -(a : Int)) | "dbl" => (rAdd r x x, 2 * (a : Int)) | _ => (sqrRawK W r x, (a : Int) * a)
       chk ("ok " ++ natToHex (t / 2 ^ r.k) ++ " " ++ boolStr (rCheck r t))
           ("ok " ++ natToHex (emodNat s m) ++ " true")
   | "r.inv", [m, a] => do
     let m ← parseNat m; let a ← parseNat a
     pure <| withRing W m fun r =>
-      let x := rawOfNat W r a
-      let model := match invRaw r x with
-        | none => "ok none"
-        | some t => "ok some " ++ natToHex (t / 2 ^ r.k) ++ " " ++ boolStr (rCheck r t)
+      let x := rawOfNatK W r a
+      let model := match invRawK W r x with
+        | .error k => "panic " ++ k.name
+        | .ok none => "ok none"
+        | .ok (some t) => "ok some " ++ natToHex (t / 2 ^ r.k) ++ " " ++ boolStr (rCheck r t)
       let spec := if Nat.gcd (a % m) m = 1 then
-          (match invRaw r x with
-           | some t => if ((t / 2 ^ r.k) * (a % m)) % m = 1 % m then "ok some " ++ natToHex (t / 2 ^ r.k) ++ " true"
+          (match invRawK W r x with
+           | .ok (some t) => if ((t / 2 ^ r.k) * (a % m)) % m = 1 % m then "ok some " ++ natToHex (t / 2 ^ r.k) ++ " true"
                        else "ok some <inverse>"
-           | none => "ok some <inverse>")
+           | _ => "ok some <inverse>")
         else "ok none"
-      chk model spec
+      chk model spec ++ ann ("r." ++ invTag W r x)
   | "r.pow", [m, a, e] => do
     let m ← parseNat m; let a ← parseNat a; let e ← parseNat e
     pure <| withRing W m fun r =>
-      let t := powRaw W r (rawOfNat W r a) e
+      let t := powRawK W r (rawOfNatK W r a) e
       let spec := Id.run do
         let mut acc := 1 % m
         for i in [0:bitLen e] do
@@ -185,7 +235,7 @@ def dispatchC13 : Dispatch := fun W op args =>
   | "r.iszero", [m, a] => do
     let m ← parseNat m; let a ← parseNat a
     pure <| withRing W m fun r =>
-      chk ("ok " ++ boolStr (rawOfNat W r a == 0)) ("ok " ++ boolStr (a % m == 0))
+      chk ("ok " ++ boolStr (rawOfNatK W r a == 0)) ("ok " ++ boolStr (a % m == 0))
   | _, _ => none
 
 
@@ -337,12 +387,15 @@ def dispatchC12 : Dispatch := fun W op args =>
     let a ← parseInt a; let b ← parseInt b
     -- multi-word × multi-word through the mirrored `gcd_ext_in_place` (Lehmer with cofactor tracking)
     pure (chk (gcdExtOut a b (gcdExtInt W (lehmerExtKernel W) a b)) (gcdExtSpec a b))
+  -- roots: every kernel mirrored — the primitive table/Newton routines of dashu-base for one and two words,
+  -- `sqrt_rem_large` over Zimmermann's `root::sqrt_rem` / `sqrt_rem_42` above; the floor-root relation is
+  -- evaluated beside every result
   | "u.sqrt", [a] => do
     let a ← parseNat a
-    pure (rootOut a 2 (.ok (sqrtRepr W a)))
+    pure (rootOut a 2 (.ok (sqrtReprM W (sqrtRemWordM W) (sqrtRemDwordM W) a)))
   | "u.sqrtrem", [a] => do
     let a ← parseNat a
-    let (s, r) := sqrtRemRepr W true a
+    let (s, r) := sqrtRemReprM W (sqrtRemWordM W) (sqrtRemDwordM W) true a
     pure (if isRoot a 2 s ∧ s * s + r = a then "ok " ++ natToHex s ++ " " ++ natToHex r
           else "ok " ++ natToHex s ++ " " ++ natToHex r ++ " !model-spec-mismatch")
   | "u.cbrt", [a] => do
@@ -356,17 +409,19 @@ def dispatchC12 : Dispatch := fun W op args =>
                       else "ok " ++ natToHex s ++ " " ++ natToHex r ++ " !model-spec-mismatch")
   | "u.nthroot", [a, n] => do
     let a ← parseNat a; let n ← parseDecNat n
-    pure (if n = 0 then chk (exc natToHex (nthRootRepr W true a n)) "panic RootZeroth"
-          else rootOut a n (nthRootRepr W true a n))
+    let m := nthRootReprM W (sqrtRemWordM W) (sqrtRemDwordM W) true a n
+    pure (if n = 0 then chk (exc natToHex m) "panic RootZeroth"
+          else rootOut a n m)
   | "i.sqrt", [a] => do
     let a ← parseInt a
-    pure (if a < 0 then chk (exc natToHex (sqrtInt W a)) "panic RootNegative" else rootOut a.natAbs 2 (sqrtInt W a))
+    let m := sqrtIntM W (sqrtRemWordM W) (sqrtRemDwordM W) a
+    pure (if a < 0 then chk (exc natToHex m) "panic RootNegative" else rootOut a.natAbs 2 m)
   | "i.cbrt", [a] => do
     let a ← parseInt a
     pure (rootIntOut a 3 (cbrtInt W true a))
   | "i.nthroot", [a, n] => do
     let a ← parseInt a; let n ← parseDecNat n
-    let m := nthRootInt W true a n
+    let m := nthRootIntM W (sqrtRemWordM W) (sqrtRemDwordM W) true a n
     pure (if n = 0 then chk (exc intToHex m) "panic RootZeroth"
           else if a < 0 ∧ n % 2 = 0 then chk (exc intToHex m) "panic RootNegative"
           else rootIntOut a n m)
@@ -417,31 +472,43 @@ def dispatchC12 : Dispatch := fun W op args =>
     let _ ← primBits ty; let a ← parseNat a; let b ← parseNat b
     -- u128 uses the two-width Euclid (half width 64), the narrower types the plain loop
     pure (chk (gcdExtOut a b (if ty = "u128" then xgcdPrimWide 64 a b else xgcdPrim a b)) (gcdExtSpec a b))
+  -- the mirrored routines of base/src/ring/root.rs (tables, Newton steps, fix loops, Karatsuba step for u128,
+  -- normalising wrappers); `none` = the routine would need wrap-around arithmetic on this input
   | "p.sqrtrem", [ty, a] => do
-    let _ ← primBits ty; let a ← parseNat a
-    let (s, r) := sqrtRemPrimFrontier a
-    pure (if isRoot a 2 s ∧ s * s + r = a then "ok " ++ natToHex s ++ " " ++ natToHex r else "ok !model-spec-mismatch")
+    let bits ← primBits ty; let a ← parseNat a
+    pure (match sqrtRemPrimBits bits a with
+      | none => "panic ArithmeticOverflow"
+      | some (s, r) =>
+        if isRoot a 2 s ∧ s * s + r = a then "ok " ++ natToHex s ++ " " ++ natToHex r
+        else "ok " ++ natToHex s ++ " " ++ natToHex r ++ " !model-spec-mismatch")
   | "p.cbrtrem", [ty, a] => do
-    let _ ← primBits ty; let a ← parseNat a
-    let s := iroot a 3
-    pure (if isRoot a 3 s then "ok " ++ natToHex s ++ " " ++ natToHex (a - s ^ 3) else "ok !model-spec-mismatch")
+    let bits ← primBits ty; let a ← parseNat a
+    pure (match cbrtRemPrimBits bits a with
+      | none => "panic ArithmeticOverflow"
+      | some (s, r) =>
+        if isRoot a 3 s ∧ s ^ 3 + r = a then "ok " ++ natToHex s ++ " " ++ natToHex r
+        else "ok " ++ natToHex s ++ " " ++ natToHex r ++ " !model-spec-mismatch")
   | "p.log2b", [ty, a] => do
     let _ ← primBits ty; let a ← parseNat a
     pure ("ok " ++ log2bOut (log2BoundsPrim a) a 1)
   | "p.sqrtrange", [ty, lo, hi] | "p.cbrtrange", [ty, lo, hi] | "p.log2brange", [ty, lo, hi] => do
-    let _ ← primBits ty; let lo ← parseDecNat lo; let hi ← parseDecNat hi
+    let bits ← primBits ty; let lo ← parseDecNat lo; let hi ← parseDecNat hi
     let item (v : Nat) : String :=
       if op = "p.sqrtrange" then
-        let s := iroot v 2
-        natToHex s ++ ":" ++ natToHex (v - s * s) ++ (if isRoot v 2 s then "" else " !model-spec-mismatch")
+        match sqrtRemPrimBits bits v with
+        | none => "overflow"
+        | some (s, r) => natToHex s ++ ":" ++ natToHex r ++ (if isRoot v 2 s ∧ s * s + r = v then "" else " !model-spec-mismatch")
       else if op = "p.cbrtrange" then
-        let s := iroot v 3
-        natToHex s ++ ":" ++ natToHex (v - s ^ 3) ++ (if isRoot v 3 s then "" else " !model-spec-mismatch")
+        match cbrtRemPrimBits bits v with
+        | none => "overflow"
+        | some (s, r) => natToHex s ++ ":" ++ natToHex r ++ (if isRoot v 3 s ∧ s ^ 3 + r = v then "" else " !model-spec-mismatch")
       else
         let b := log2BoundsPrim v
         f32Hex b.1 ++ ":" ++ f32Hex b.2 ++ enclosureMark b.1 b.2 v 1
     pure ("ok " ++ ",".intercalate ((List.range (hi - lo)).map fun i => item (lo + i)))
   | "tab.log2", [_] => pure ("ok " ++ natToHex LOG2_TAB_PACKED)
+  | "tab.rsqrt", [_] => pure ("ok " ++ natToHex (packBytes RSQRT_TAB))
+  | "tab.rcbrt", [_] => pure ("ok " ++ natToHex (packBytes RCBRT_TAB))
   -- ---- no_std build of the libraries (table estimator): the case generator runs the harness built
   --      without the `std` feature and passes its answer as `payload`; the std harness echoes it
   | "p.flog2b", [ty, b] => do
